@@ -209,6 +209,15 @@ func specFor(c *eng.Ctx, l layout, idx int) *CaseSpec {
 		if r.Intn(2) == 0 {
 			o.CloseH = "custom"
 		}
+		if idx%5 == 0 {
+			// the documented "nil means default" values of the two handler options
+			if o.ErrH == ErrHDefault {
+				o.ErrH = ErrHNil
+			}
+			if o.CloseH == "default" {
+				o.CloseH = "nil-option"
+			}
+		}
 		tr := defaultTransport(fw)
 		n := 3 + r.Intn(l.maxLen-2)
 		seq := make([]Plan, n)
